@@ -29,6 +29,11 @@ func genInputCase(t *rapid.T) *Case {
 	if rapid.IntRange(0, 2).Draw(t, "has_opt") == 0 {
 		doc["opt"] = rapid.SampledFrom([]string{"o", ""}).Draw(t, "opt")
 	}
+	hasPorts := rapid.IntRange(0, 2).Draw(t, "has_ports") == 0
+	if hasPorts {
+		// a map with integer keys (given in decimal notation, as every document format has them)
+		doc["ports"] = map[string]any{"8080": rapid.SampledFrom([]string{"web", "w"}).Draw(t, "port_a"), "9": "discard"}
+	}
 	hasNested := rapid.Bool().Draw(t, "has_nested")
 	if hasNested {
 		n := map[string]any{"x": int64(rapid.IntRange(0, 9).Draw(t, "nx"))}
@@ -57,6 +62,9 @@ func genInputCase(t *rapid.T) *Case {
 	strRefs := []*ir.Expr{ir.Ref("input", "tag")}
 	if _, ok := doc["opt"]; ok {
 		strRefs = append(strRefs, ir.Ref("input", "opt"))
+	}
+	if hasPorts {
+		strRefs = append(strRefs, ir.Ref("input", "ports", 8080), ir.Ref("input", "ports", 8080), ir.Ref("input", "ports", 9))
 	}
 	if hasNested {
 		intRefs = append(intRefs, ir.Ref("input", "nested", "x"))
@@ -97,7 +105,7 @@ func genInputCase(t *rapid.T) *Case {
 	// corrupt the document half of the time
 	corruption := "none"
 	if rapid.Bool().Draw(t, "corrupt") {
-		corruption = rapid.SampledFrom([]string{"missing-n", "missing-tag", "missing-flag", "n-not-a-number", "flag-not-bool", "unknown-key", "nested-without-x", "item-without-v", "items-not-a-list", "nested-unknown-key", "m-is-a-list", "tag-is-null", "m-is-null", "nested-y-is-null"}).Draw(t, "corruption")
+		corruption = rapid.SampledFrom([]string{"missing-n", "missing-tag", "missing-flag", "n-not-a-number", "flag-not-bool", "unknown-key", "nested-without-x", "item-without-v", "items-not-a-list", "nested-unknown-key", "m-is-a-list", "tag-is-null", "m-is-null", "nested-y-is-null", "port-key-not-a-number", "port-value-not-a-string"}).Draw(t, "corruption")
 		switch corruption {
 		case "missing-n":
 			delete(doc, "n")
@@ -121,6 +129,10 @@ func genInputCase(t *rapid.T) *Case {
 			doc["nested"] = map[string]any{"x": int64(1), "z": int64(2)}
 		case "m-is-a-list":
 			doc["m"] = []any{int64(1)}
+		case "port-key-not-a-number":
+			doc["ports"] = map[string]any{"http": "web"}
+		case "port-value-not-a-string":
+			doc["ports"] = map[string]any{"8080": []any{"web"}}
 		case "tag-is-null":
 			doc["tag"] = nil
 		case "m-is-null":
